@@ -815,9 +815,12 @@ def _t(ctx, label):
 
 
 def run(ctx):
-    from . import c20i
+    from . import c20i, c20h
     # C20I: the sample integrators, the extraction walk and the sigma clip of isophote/integrator.py + sample.py
-    ctx.build_with_translator(FILES, extra_files=c20i.COQ_FILES, extra_obligation_files=['C20I_Properties.v'])
+    # C20H: the harmonic least squares, the four geometry correctors and the convergence test of fitter.py
+    #       (the truth is a fixed point of the fit)
+    ctx.build_with_translator(FILES, extra_files=c20i.COQ_FILES + c20h.COQ_FILES,
+                              extra_obligation_files=['C20I_Properties.v'] + c20h.OBLIGATION_FILES)
     _t(ctx, 'build')
     quick = ctx.tier == 'quick'
     ctx.level = 'proof'
@@ -1180,6 +1183,8 @@ def run(ctx):
     # ---- integrators / extraction walk / sigma clip (C20I), own PRNG: the stream above is unchanged ------------
     c20i.run_integrator_correspondence(ctx, 300 if quick else 3000)
     _t(ctx, 'c20i')
+    c20h.run_harmonics_correspondence(ctx, 100 if quick else 1500)
+    _t(ctx, 'c20h')
 
 
 def _frame_broken(s):
